@@ -59,6 +59,27 @@ def slot_attr(corpus):
                 for t in n.targets:
                     if isinstance(t, ast.Attribute) and isinstance(t.value, ast.Name) and t.value.id == 'self':
                         found.append(t.attr)
+        if not found:
+            # ... or to a local that was bound to the queue (built, filled, then stored)
+            made_ = {t.id for a in walk_local(init.node) if isinstance(a, ast.Assign) and isinstance(a.value, ast.Call) and (dotted(a.value.func) or '').endswith('Queue') for t in a.targets if isinstance(t, ast.Name)}
+            for n in walk_local(init.node):
+                if isinstance(n, ast.Assign) and isinstance(n.value, ast.Name) and n.value.id in made_:
+                    for t in n.targets:
+                        if isinstance(t, ast.Attribute) and isinstance(t.value, ast.Name) and t.value.id == 'self':
+                            found.append(t.attr)
+        if not found:
+            # ... or to the result of a method that builds and returns the queue
+            cls_ = repo_cls(corpus)
+            for n in walk_local(init.node):
+                if isinstance(n, ast.Assign) and isinstance(n.value, ast.Call) and isinstance(n.value.func, ast.Attribute) and isinstance(n.value.func.value, ast.Name) and n.value.func.value.id == 'self':
+                    m_ = cls_.methods.get(n.value.func.attr)
+                    if m_ is None:
+                        continue
+                    made = {t.id for a in walk_local(m_.node) if isinstance(a, ast.Assign) and isinstance(a.value, ast.Call) and (dotted(a.value.func) or '').endswith('Queue') for t in a.targets if isinstance(t, ast.Name)}
+                    if made and any(isinstance(r, ast.Return) and isinstance(r.value, ast.Name) and r.value.id in made for r in walk_local(m_.node)):
+                        for t in n.targets:
+                            if isinstance(t, ast.Attribute) and isinstance(t.value, ast.Name) and t.value.id == 'self':
+                                found.append(t.attr)
         if len(found) != 1:
             raise AnalysisError(f'C09: expected exactly one queue attribute bound in Repository.__init__ (the slot queue), found {found}')
         _SLOT_ATTR[key] = found[0]
